@@ -52,6 +52,7 @@ func wrap64(x int64) int64 { return x }
 func mulU128(a, b uint64) uint64 { return a * b }
 func mathInt(x uint64) int64 { return int64(x) }
 func isnil[T any](s []T) bool { return s == nil }
+func same[T any](a, b T) bool { return reflect.DeepEqual(a, b) }
 `
 
 func funcKey(fd *ast.FuncDecl) string {
@@ -571,7 +572,7 @@ func (prog *Program) clauseSignature(p0 *packages.Package, fd *ast.FuncDecl, wit
 
 func (prog *Program) genSynth(p0 *packages.Package) (string, error) {
 	var b strings.Builder
-	b.WriteString("//go:build verif\n\npackage " + p0.Name + "\n\nimport (\n\t\"math\"\n\t\"golang.org/x/exp/constraints\"\n)\n\nvar _ = math.Abs\n")
+	b.WriteString("//go:build verif\n\npackage " + p0.Name + "\n\nimport (\n\t\"math\"\n\t\"reflect\"\n\t\"golang.org/x/exp/constraints\"\n)\n\nvar _ = math.Abs\n")
 	b.WriteString(specBuiltins)
 	for _, sf := range prog.C.Specs {
 		if sf.Opaque {
